@@ -372,6 +372,12 @@ def run_real(src, std="f2008", ignore_comments=True, process_directives=False, f
             if rec.blank_eof is None:
                 rec.blank_eof = rec.is_blank()
             break
+        if "g-" in rec.sops:
+            # the parser was told "end of stream" although the reader still has items: next()
+            # swallowed an internal exception of the reader (F-C12-1: e.g. a line that consists
+            # of a label only) and reported it as the end.  The stream the model would be given
+            # is not the one the parser saw: outside what the block model describes.
+            rec.reader_exit = True
         rec.see(item)
     SYMBOL_TABLES.clear()
     return rec, outcome, tree, forest, chain
@@ -402,6 +408,13 @@ def check_source(model, src, std="f2008", ignore_comments=True, process_directiv
     With want_info=True returns (disagreement-or-None, info dict)."""
     rec, outcome, tree, forest, chain = run_real(
         src, std, ignore_comments, process_directives, free_form)
+    if "g-" in rec.sops:
+        k_ = rec.sops.index("g-")
+        if any(x[:1] == "g" and x != "g-" for x in rec.sops[k_ + 1:]):
+            # next() reported the end of the stream and delivered items afterwards: it had swallowed
+            # an internal exception of the reader (F-C12-1, e.g. a line that consists of a label
+            # only).  The stream is not a stream: outside what the block model describes.
+            rec.reader_exit = True
     if rec.reader_exit:
         info = {"outcome": outcome, "ghost": [], "classes": collections.Counter(), "queries": len(rec.queries), "hits": rec.hits,
                 "items": len(rec.items), "linecount": rec.linecount, "chain": chain, "forest": forest,
